@@ -49,6 +49,10 @@ type Expectation struct {
 	Excluded map[string]int
 	// Rules lists the skip mechanisms that actually fired.
 	Fired map[string]bool
+	// Optional lists Extract calls the property leaves open: a symlink (with symlink reading
+	// on) whose own path matches a directory skip rule may or may not be extracted; nothing
+	// else may change because of it.
+	Optional []Extraction
 	// VisitedInodes is the number of inodes the model's walk visits (observed only).
 	VisitedInodes int
 }
@@ -260,6 +264,15 @@ func (m *model) visitDir(d string) {
 		case memfs.KSymlink:
 			m.exp.VisitedInodes++
 			if m.cfg.ReadSymlinks {
+				if r := m.skipRule(p); r == "skip_list" || r == "regex" || r == "glob" {
+					// the rules are about directories; whether they also apply to a symlink
+					// that carries a matching path is not pinned
+					n0 := len(m.exp.Calls)
+					m.file(p, false)
+					m.exp.Optional = append(m.exp.Optional, m.exp.Calls[n0:]...)
+					m.exp.Calls = m.exp.Calls[:n0]
+					continue
+				}
 				m.file(p, false)
 			}
 		default:
